@@ -1,6 +1,6 @@
 import sqlite3, os, tempfile, shutil, hashlib
 from wormhole_mailbox_server import database as D
-d=tempfile.mkdtemp(dir="/root/scratch")
+d=tempfile.mkdtemp()
 def mkv1(p):
     db=sqlite3.connect(p); db.executescript(D.get_schema("usage",1)); db.execute("INSERT INTO version (version) VALUES (1)")
     db.execute("INSERT INTO nameplates VALUES ('a',1,2,3,'happy')"); db.commit(); db.close()
